@@ -68,6 +68,29 @@ def counting_class():
     return _st["counting"]
 
 
+def counting_mat_class():
+    if "countingm" not in _st:
+        from lsst.daf.relation.iteration import MaterializedRowIterable
+
+        class CountingMaterialized(MaterializedRowIterable):
+            """A MATERIALIZED payload that is not a RowSequence (think: rows held in some other container)
+            and counts the iterations started: materialized() returns it as it is, slicing it is lazy."""
+
+            def __init__(self, rows):
+                self._rows = rows
+                self.starts = 0
+
+            def __iter__(self):
+                self.starts += 1
+                return iter(list(self._rows))
+
+            def __len__(self):
+                return len(self._rows)
+
+        _st["countingm"] = CountingMaterialized
+    return _st["countingm"]
+
+
 class World:
     """Real objects for one TLC state."""
 
@@ -83,7 +106,8 @@ class World:
 
         def mk(name, rows, engine, mn, mx, columns=cols):
             real_rows = build.rows(rows)
-            payload = RowSequence(real_rows) if mode == "seq" else counting_class()(real_rows)
+            payload = (RowSequence(real_rows) if mode == "seq" else counting_mat_class()(real_rows) if mode == "cmat"
+                       else counting_class()(real_rows))
             self.payloads[name] = payload
             return LeafRelation(engine, columns, payload, name=name, min_rows=mn, max_rows=None if mx == -1 else mx)
 
@@ -173,6 +197,8 @@ def canon_tree(t, keep_p: bool = False):
                 continue
             if key == "compound" and k == "sel":
                 continue
+            if key == "unres" and not v:
+                continue          # a resolved join (the normal case); the model has no such field
             if key in ("cols", "common") and isinstance(v, list):
                 out[key] = sorted(v)
             else:
@@ -413,6 +439,33 @@ def replay_state(st: dict, out: dict, want_event: bool) -> None:
             out["counters"]["lazy_count_drift"] = out["counters"].get("lazy_count_drift", 0) + 1
     except Exception as exc:  # noqa: BLE001
         V(["C01", "C18"], f"execution with lazy leaf payloads raised {type(exc).__name__}: {exc}")
+    # ---------------- materialized (non-sequence) counting leaves: C01 once more, C18
+    if "lazym" in st:
+        try:
+            wm = World(st, "cmat")
+            relm, _ = wm.build()
+            pay = {k: wm.payloads[k] for k in ("L1", "L2")}
+            result = relm.engine.execute(relm)
+            ex = {k: p.starts for k, p in pay.items()}
+            rows1 = project.rows(result)
+            it1 = {k: pay[k].starts - ex[k] for k in pay}
+            if rows1 != exp_rows:
+                V(["C01"], "executed rows differ from direct evaluation (materialized non-sequence leaf payloads)", observed=rows1,
+                  expected=exp_rows, leaves="MaterializedRowIterable")
+            lm = st["lazym"]
+            mex = {k: lm["ex"].get(k, 0) for k in pay} if isinstance(lm["ex"], dict) else {k: 0 for k in pay}
+            mit = {k: lm["it"].get(k, 0) for k in pay} if isinstance(lm["it"], dict) else {k: 0 for k in pay}
+            if st["lazy"]["only"] and any(ex.values()):
+                V(["C18"], "execute() iterated a materialized leaf payload of a tree made only of lazy operations", starts_at_execute=ex)
+            elif any(ex[k] > mex[k] for k in pay):
+                V(["C18"], "execute() consumed a materialized leaf payload more often than once per eager operation", observed=ex, model=mex)
+            if any(it1[k] > mit[k] for k in pay):
+                V(["C18"], "iterating the result re-consumed a materialized leaf payload", observed=it1, model=mit)
+            if (ex, it1) != (mex, mit):
+                out["counters"]["lazy_count_drift_materialized"] = out["counters"].get("lazy_count_drift_materialized", 0) + 1
+            out["counters"]["materialized_leaf_runs"] = out["counters"].get("materialized_leaf_runs", 0) + 1
+        except Exception as exc:  # noqa: BLE001
+            V(["C01", "C18"], f"execution with materialized leaf payloads raised {type(exc).__name__}: {exc}")
     # ---------------- hand the real tree to TLC
     if want_event:
         out["events"].append({"tree": full_tree(rel), "env": {"L1": st["l1"], "L2": st["l2"]},
